@@ -42,6 +42,7 @@ func c25(r *core.Run) {
 		return
 	}
 	const get = "(*" + pkg + ".Blocklist).get"
+	c25ListingComplete(r, pcl)
 	// predicate signature of fn relative to its `get` call and a "still blocked" sink
 	sig := func(fn *ssa.Function, sink func(ssa.Instruction) bool) ([]string, int) {
 		r.Saw(core.FuncName(fn))
